@@ -35,16 +35,23 @@ CONSTANTS
     Orders,     \* set of candidate substance orders (sequences of species, no repetition)
     FullOrder,  \* TRUE: the substance list is the whole order; FALSE: restricted to touched species
     Points,     \* set of concentration states [Species -> rational]
-    Feeds       \* set of stirred-tank conditions [F |-> rational, cf |-> [Species -> rational]]
+    Feeds,      \* set of stirred-tank conditions [F |-> rational, cf |-> [Species -> rational],
+                \*   kind |-> "all" | "map" | "rev" | "sub"] (which substances get a feed term and in
+                \*   which order the caller's substance -> feed-key mapping lists them, see FeedOrderOf)
+    PhaseMaps,  \* set of maps Species -> Nat: phase index of the object standing for each substance
+    ReKVals,    \* rate-constant values used when a constant is re-assigned after an evaluation
+    MaxHist     \* maximal number of re-assignments
 
 VARIABLES
     rsys,       \* the system: sequence of reactions
     subst,      \* substance order of the system (sequence of species names)
     c,          \* concentration state: species -> rational (<<>> before SetState)
-    feed,       \* NoFeed or [on |-> TRUE, F |-> q, cf |-> map]
+    feed,       \* NoFeed or [on |-> TRUE, F |-> q, cf |-> map, order |-> seq, usermap |-> BOOLEAN]
+    sphase,     \* phase index of each substance (0 = plain substance); irrelevant to every rate
+    hist,       \* history of re-assignments <<i, old kv, new kv>> made after the state was evaluated
     phase       \* "build" -> "ready" (terminal for Kinetics; OdeBuild adds "built")
 
-kvars == <<rsys, subst, c, feed, phase>>
+kvars == <<rsys, subst, c, feed, sphase, hist, phase>>
 
 ------------------------------------------------------------------------------
 (* sparse coefficient maps *)
@@ -76,8 +83,13 @@ Contribution(r, cc) == [s \in Species |-> QMul(Q(Net(r)[s]), RateOf(r, cc))]
 Rates(sys, cc) ==
     [s \in Species |-> QSumSeq([i \in 1..Len(sys) |-> Contribution(sys[i], cc)[s]])]
 FeedTerm(fd, cc, s) == QMul(fd.F, QSub(fd.cf[s], cc[s]))
-RatesCSTR(sys, cc, fd) == [s \in Species |-> QAdd(Rates(sys, cc)[s], FeedTerm(fd, cc, s))]
-NoFeed == [on |-> FALSE]
+SeqSet(sq) == { sq[i] : i \in DOMAIN sq }
+\* a substance gets a feed term iff the caller's mapping lists it (all substances by default)
+Fed(fd, s) == fd.on /\ s \in SeqSet(fd.order)
+RatesCSTR(sys, cc, fd) ==
+    [s \in Species |-> IF s \in SeqSet(fd.order) THEN QAdd(Rates(sys, cc)[s], FeedTerm(fd, cc, s))
+                       ELSE Rates(sys, cc)[s]]
+NoFeed == [on |-> FALSE, order |-> <<>>, usermap |-> FALSE]
 RatesFed(sys, cc, fd) == IF fd.on THEN RatesCSTR(sys, cc, fd) ELSE Rates(sys, cc)
 
 (* net stoichiometric matrix: N[i][s], rows = reactions *)
@@ -130,7 +142,8 @@ VEnv(cc, fd) == cc @@ FeedEnv(fd)
 
 ------------------------------------------------------------------------------
 (* state machine *)
-Init == rsys = <<>> /\ subst = <<>> /\ c = EmptyMap /\ feed = NoFeed /\ phase = "build"
+Init == /\ rsys = <<>> /\ subst = <<>> /\ c = EmptyMap /\ feed = NoFeed /\ phase = "build"
+        /\ sphase = EmptyMap /\ hist = <<>>
 
 MkReaction(shape, idx, kv) ==
     [reac |-> Sparse(shape.reac), prod |-> Sparse(shape.prod), ireac |-> Sparse(shape.ireac),
@@ -139,32 +152,57 @@ MkReaction(shape, idx, kv) ==
 AddReaction(shape, kv) ==
     /\ phase = "build" /\ IsShape(shape) /\ IsQ(kv)
     /\ rsys' = Append(rsys, MkReaction(shape, Len(rsys) + 1, kv))
-    /\ UNCHANGED <<subst, c, feed, phase>>
+    /\ UNCHANGED <<subst, c, feed, sphase, hist, phase>>
 
 IsOrder(o) == /\ \A i, j \in DOMAIN o : i # j => o[i] # o[j]
               /\ { o[i] : i \in DOMAIN o } \subseteq Species
 OrderFor(o, sys) == IF FullOrder THEN o ELSE SelectSeq(o, LAMBDA s : s \in Touched(sys))
 
-(* fix the substance order and the concentration state *)
-SetState(o, cc) ==
+(* fix the substance order, the concentration state and the phase of each substance object *)
+SetState(o, cc, ph) ==
     /\ phase = "build" /\ rsys # <<>> /\ IsOrder(o)
     /\ Touched(rsys) \subseteq { o[i] : i \in DOMAIN o }
     /\ DOMAIN cc = Species /\ \A s \in Species : IsQ(cc[s])
-    /\ subst' = o /\ c' = cc /\ phase' = "ready"
-    /\ UNCHANGED <<rsys, feed>>
+    /\ DOMAIN ph = Species /\ \A s \in Species : ph[s] \in Nat
+    /\ subst' = o /\ c' = cc /\ sphase' = ph /\ phase' = "ready"
+    /\ UNCHANGED <<rsys, feed, hist>>
 
-(* stirred-tank conditions: feed-rate/volume ratio F and feed concentrations cf *)
-Feed(F, cf) ==
+(* stirred-tank conditions: feed-rate/volume ratio F, feed concentrations cf; `order` lists the *)
+(* substances of the caller's substance -> feed-key mapping in ITS order (any sub-permutation *)
+(* of the substance list); usermap = FALSE is the builder's own mapping (all, system order)   *)
+Feed(F, cf, order, usermap) ==
     /\ phase = "ready" /\ ~feed.on /\ IsQ(F)
     /\ DOMAIN cf = Species /\ \A s \in Species : IsQ(cf[s])
-    /\ feed' = [on |-> TRUE, F |-> F, cf |-> cf]
-    /\ UNCHANGED <<rsys, subst, c, phase>>
+    /\ IsOrder(order) /\ order # <<>> /\ SeqSet(order) \subseteq SeqSet(subst)
+    /\ usermap \in BOOLEAN /\ (~usermap => order = subst)
+    /\ hist = <<>>
+    /\ feed' = [on |-> TRUE, F |-> F, cf |-> cf, order |-> order, usermap |-> usermap]
+    /\ UNCHANGED <<rsys, subst, c, sphase, hist, phase>>
+
+(* the rate constant of reaction i is re-assigned AFTER the state has been evaluated; what is *)
+(* reported afterwards is governed by the current constant only                               *)
+Reassign(i, kv) ==
+    /\ phase = "ready" /\ i \in DOMAIN rsys /\ IsQ(kv) /\ kv # rsys[i].kv
+    /\ rsys' = [rsys EXCEPT ![i].kv = kv]
+    /\ hist' = Append(hist, <<i, rsys[i].kv, kv>>)
+    /\ UNCHANGED <<subst, c, feed, sphase, phase>>
+
+RevSeq(sq) == [i \in 1..Len(sq) |-> sq[Len(sq) + 1 - i]]
+FeedOrderOf(kind) ==
+    CASE kind = "all" -> <<subst, FALSE>>
+      [] kind = "map" -> <<subst, TRUE>>
+      [] kind = "rev" -> <<RevSeq(subst), TRUE>>
+      [] kind = "sub" -> <<IF Len(subst) > 1 THEN RevSeq(Tail(subst)) ELSE subst, TRUE>>
 
 GenAdd == \E shape \in Catalog : Len(rsys) < MaxR /\ AddReaction(shape, KVals[Len(rsys) + 1])
-GenState == \E o \in Orders, cc \in Points : SetState(OrderFor(o, rsys), cc)
-GenFeed == \E fd \in Feeds : Feed(fd.F, fd.cf)
+GenState == \E o \in Orders, cc \in Points, ph \in PhaseMaps : SetState(OrderFor(o, rsys), cc, ph)
+GenFeed == \E fd \in Feeds : Feed(fd.F, fd.cf, FeedOrderOf(fd.kind)[1], FeedOrderOf(fd.kind)[2])
+\* the generator keeps the constants pairwise distinct (prime point, PointSeparates)
+GenReassign == \E i \in DOMAIN rsys, kv \in ReKVals :
+                  /\ Len(hist) < MaxHist /\ \A j \in DOMAIN rsys : rsys[j].kv # kv
+                  /\ Reassign(i, kv)
 
-Next == GenAdd \/ GenState \/ GenFeed
+Next == GenAdd \/ GenState \/ GenFeed \/ GenReassign
 Spec == Init /\ [][Next]_kvars
 
 Done == phase = "ready"
@@ -177,8 +215,8 @@ Permuted(sys, p) == [i \in 1..Len(sys) |-> sys[p[i]]]
 \* the polynomial and the fold over contributions denote the same number at the state
 PolyAgreesWithFold == Done =>
     \A s \in Species :
-        /\ EvalPoly(RatePolyFed(rsys, s, feed.on), VEnv(c, feed), KEnv(rsys)) = RatesFed(rsys, c, feed)[s]
-        /\ EvalPoly(RatePolyInlinedFed(rsys, s, feed.on), VEnv(c, feed), EmptyMap) = RatesFed(rsys, c, feed)[s]
+        /\ EvalPoly(RatePolyFed(rsys, s, Fed(feed, s)), VEnv(c, feed), KEnv(rsys)) = RatesFed(rsys, c, feed)[s]
+        /\ EvalPoly(RatePolyInlinedFed(rsys, s, Fed(feed, s)), VEnv(c, feed), EmptyMap) = RatesFed(rsys, c, feed)[s]
 
 \* independent of the order of the reactions in the list
 PermutationInvariant == Done =>
@@ -197,11 +235,21 @@ InactiveNotInExponent == Done =>
 UntouchedGetNothing == Done =>
     \A s \in Untouched(rsys) : RatePoly(rsys, s) = {} /\ Rates(rsys, c)[s] = QZero
 
-\* stirred tank adds exactly F*(cf - c) per substance
+\* stirred tank adds exactly F*(cf - c) to every substance the mapping lists, nothing to the others;
+\* the order in which the mapping lists them is irrelevant
 FeedExact == (Done /\ feed.on) =>
     \A s \in Species :
-        /\ QSub(RatesCSTR(rsys, c, feed)[s], Rates(rsys, c)[s]) = QMul(feed.F, QSub(feed.cf[s], c[s]))
-        /\ RatePolyFed(rsys, s, TRUE) = PolyAdd(RatePoly(rsys, s), FeedPoly(s))
+        IF s \in SeqSet(feed.order)
+        THEN /\ QSub(RatesCSTR(rsys, c, feed)[s], Rates(rsys, c)[s]) = QMul(feed.F, QSub(feed.cf[s], c[s]))
+             /\ RatePolyFed(rsys, s, TRUE) = PolyAdd(RatePoly(rsys, s), FeedPoly(s))
+             /\ RatesCSTR(rsys, c, [feed EXCEPT !.order = RevSeq(@)])[s] = RatesCSTR(rsys, c, feed)[s]
+        ELSE RatesCSTR(rsys, c, feed)[s] = Rates(rsys, c)[s]
+
+\* after re-assignments the constant in force is the last one assigned (and only constants changed)
+CurrentConstantRules == Done =>
+    /\ \A j \in DOMAIN hist :
+          (\A l \in DOMAIN hist : l > j => hist[l][1] # hist[j][1]) => rsys[hist[j][1]].kv = hist[j][3]
+    /\ \A j \in DOMAIN hist : hist[j][1] \in DOMAIN rsys /\ hist[j][2] # hist[j][3]
 
 \* a catalyst (same active coefficient on both sides, nothing inactive) has net 0 but still
 \* shows in the exponent vectors of the other substances
@@ -215,7 +263,7 @@ PointSeparates == Done =>
     \A s \in Species : \A m1, m2 \in RatePoly(rsys, s) :
         m1 # m2 => QAbs(MonoValue(m1, VEnv(c, feed), KEnv(rsys))) # QAbs(MonoValue(m2, VEnv(c, feed), KEnv(rsys)))
 
-PolysNormal == Done => \A s \in Species : IsPoly(RatePolyFed(rsys, s, feed.on))
+PolysNormal == Done => \A s \in Species : IsPoly(RatePolyFed(rsys, s, Fed(feed, s)))
 
 TypeOK == /\ phase \in {"build", "ready", "built"}
           /\ \A i \in DOMAIN rsys : rsys[i].k = i
@@ -239,21 +287,27 @@ Class == "n" \o ToString(Len(rsys))
          \o (IF HasIReac THEN "-ir" ELSE "") \o (IF HasIProd THEN "-ip" ELSE "")
          \o (IF HasZero THEN "-z" ELSE "") \o (IF HasBothSides THEN "-b" ELSE "")
          \o (IF HasShared THEN "-sh" ELSE "") \o (IF feed.on THEN "-cstr" ELSE "")
+         \o (IF feed.usermap THEN "-map" ELSE "") \o (IF hist # <<>> THEN "-h" ELSE "")
+         \o (IF \E s \in DOMAIN sphase : sphase[s] > 0 THEN "-ph" ELSE "")
          \o (IF Untouched(rsys) \cap { subst[i] : i \in DOMAIN subst } # {} THEN "-u" ELSE "")
 
+FeedOut == IF feed.on THEN [on |-> TRUE, F |-> feed.F, cf |-> BySubst(feed.cf),
+                             order |-> feed.order, usermap |-> feed.usermap]
+           ELSE [on |-> FALSE, F |-> QZero, cf |-> <<>>, order |-> <<>>, usermap |-> FALSE]
 CaseIn == [ subst |-> subst,
             rxns |-> [i \in 1..Len(rsys) |-> RxnOut(rsys[i])],
             c |-> BySubst(c),
-            feed |-> IF feed.on THEN [on |-> TRUE, F |-> feed.F, cf |-> BySubst(feed.cf)]
-                     ELSE [on |-> FALSE, F |-> QZero, cf |-> <<>>] ]
+            sphase |-> BySubst(sphase),
+            hist |-> hist,
+            feed |-> FeedOut ]
 CaseExp == [ net |-> [i \in 1..Len(rsys) |-> BySubst(Net(rsys[i]))],
              order |-> [i \in 1..Len(rsys) |-> Order(rsys[i])],
              rvals |-> [i \in 1..Len(rsys) |-> RateOf(rsys[i], c)],
              contrib |-> [i \in 1..Len(rsys) |-> BySubst(Contribution(rsys[i], c))],
              rates |-> BySubst(Rates(rsys, c)),
              fed |-> BySubst(RatesFed(rsys, c, feed)),
-             poly |-> BySubst([s \in Species |-> PolyOut(RatePolyFed(rsys, s, feed.on))]),
-             polyin |-> BySubst([s \in Species |-> PolyOut(RatePolyInlinedFed(rsys, s, feed.on))]),
+             poly |-> BySubst([s \in Species |-> PolyOut(RatePolyFed(rsys, s, Fed(feed, s)))]),
+             polyin |-> BySubst([s \in Species |-> PolyOut(RatePolyInlinedFed(rsys, s, Fed(feed, s)))]),
              rpoly |-> [i \in 1..Len(rsys) |->
                           BySubst([s \in Species |-> PolyOut(RatePolyInlined(<<rsys[i]>>, s))])] ]
 CaseRec == [ in |-> CaseIn, exp |-> CaseExp, cls |-> Class ]
